@@ -376,8 +376,78 @@ def rule_one_shot(model):
         'an attribute of a shared compiled object')
 
 
+def _handed_out(model):
+    """(method, return node, attribute, offending store) for render-time
+    callables of compiled objects -- __call__ / eval / render taking the
+    namespace -- that return an attribute of the compiled object whose
+    value may be a mutable object built once while compiling."""
+    from .c17 import _maybe_mutable
+    out = []
+    for ci in model.all_classes():
+        for name in ('__call__', 'eval', 'render'):
+            f = ci.methods.get(name)
+            if f is None or len(f.params()) != 2:
+                continue
+            for x in own_nodes(f.node):
+                if not (isinstance(x, ast.Return) and isinstance(
+                        x.value, ast.Attribute) and isinstance(
+                        x.value.value, ast.Name) and
+                        x.value.value.id == 'self'):
+                    continue
+                attr = x.value.attr
+                for g in ci.methods.values():
+                    for y in own_nodes(g.node):
+                        if isinstance(y, ast.Assign) and any(
+                                isinstance(t, ast.Attribute) and
+                                t.attr == attr and norm(t.value) == 'self'
+                                for t in y.targets) and _maybe_mutable(
+                                    model, g, y.value):
+                            out.append((f, x, attr, y))
+    return out
+
+
+def rule_compile_time_values(model):
+    r = RuleResult('C18.R9', 'what a compiled tag hands to the templates '
+                   'at render time is computed at render time: a value '
+                   'built once while compiling (an evaluated literal, a '
+                   'pre-computed list) and returned as it is by the '
+                   "tag's render-time callable is ONE object for every "
+                   'rendering and every thread -- a mutable one (the '
+                   'accumulator idiom `acc="[]"`) carries items from one '
+                   'rendering into the next')
+    n = 0
+    for f, x, attr, y in _handed_out(model):
+        n += 1
+        r.instance(f.where, x, 'COMPILE-TIME OBJECT HANDED OUT')
+        r.finding(f.where, x, f'{f.cls.name}.{f.name}() returns self.{attr}, '
+                  f'which is set to `{norm(y.value)}` while compiling: if '
+                  'that is a list, dict or other mutable object every '
+                  'rendering (and every thread) receives the same one and '
+                  'sees what the others appended', node=x, ctx=f)
+    from ..model import Model
+    cm = Model(sources={'src/DocumentTemplate/zz_literal_control.py':
+                        'class Lit:\n'
+                        '    def __init__(self, value):\n'
+                        '        self.value = value\n'
+                        '        self.n = 1\n'
+                        '    def __call__(self, md):\n'
+                        '        return self.value\n'
+                        'class Num:\n'
+                        '    def __init__(self, value):\n'
+                        '        self.n = len(value)\n'
+                        '    def eval(self, md):\n'
+                        '        return self.n\n'}, root=None)
+    got = [(f.where, a) for f, x, a, y in _handed_out(cm)]
+    ok = got == [('zz_literal_control:Lit.__call__', 'value')]
+    r.control('control: a literal holder is recognised, a number holder '
+              'is not', ok)
+    if not ok:
+        raise AnalysisError(f'C18.R9: control failed ({got})')
+    return r
+
+
 INLINED_VIEW = False
-RULES_PLAIN = [rule_lock, rule_writers, rule_races, rule_registry, rule_reentry, rule_namespace, rule_scanner, rule_one_shot]
+RULES_PLAIN = [rule_compile_time_values, rule_lock, rule_writers, rule_races, rule_registry, rule_reentry, rule_namespace, rule_scanner, rule_one_shot]
 RULES = [_inl(r_) for r_ in RULES_PLAIN] if INLINED_VIEW else [
     (_inl(r_) if r_ is rule_namespace else r_) for r_ in RULES_PLAIN]
 EXPLANATION = (
